@@ -813,6 +813,18 @@ func (g *g) deriveObj(v *V, ty *Ty, depth int) *P {
 			p.Sub = append(p.Sub, g.derive(v.E[i], tyAny, depth+1))
 		}
 	}
+	if classIsA(pd.Name, "Pt") && p.K == "obj" && g.pct(45, "tagattr") {
+		// the method-defined getter `tag`: what the pattern reads is decided by the value's run-time class
+		p.Attrs = append(p.Attrs, "tag")
+		want := "pt"
+		if v.S == "PtO" {
+			want = "pto"
+		}
+		if g.pct(40, "tagother") {
+			want = map[string]string{"pt": "pto", "pto": "pt"}[want] // what the other class in the hierarchy answers
+		}
+		p.Sub = append(p.Sub, &P{K: "lit", V: vSym(want)})
+	}
 	// attributes of the pattern's class that the value's class lacks are never read when the
 	// class test fails first; do not add them (the getter would not exist otherwise).
 	return p
